@@ -161,15 +161,14 @@ Proof.
   intros Hm Hf. unfold recurse_out.
   destruct (structish_inner (sf_ty f)) as [inner|] eqn:SI; [| split; [reflexivity | intros r H; inversion H; exact Hf]].
   destruct (negb (should_recurse m)); [split; [reflexivity | intros r H; inversion H; exact Hf]|].
-  destruct (either_implements_tu (sf_ty f)); [split; [reflexivity | intros r H; inversion H; exact Hf]|].
+  destruct (either_implements_tu inner) eqn:Ei; [split; [reflexivity | intros r H; inversion H; exact Hf]|].
   pose proof (structish_depth _ _ SI) as Di. pose proof (structish_kind _ _ SI) as Ki. unfold dle in Hf.
-  destruct inner; try discriminate Ki; try (split; [reflexivity | intros r H; discriminate]).
-  all: try (assert (Dd : type_depth (TStruct fs name) <= d) by lia; rewrite (agree m fs name Hm Dd); split; [reflexivity|];
-            intros r H; rewrite <- (agree m fs name Hm Dd) in H;
-            destruct (sub1 m (TStruct fs name)) as [r'| |] eqn:S1; simpl in H; try discriminate;
-            inversion H; subst; unfold dle; simpl; rewrite rewrap_depth;
-            pose proof (shrink m fs name r' Hm Dd S1); lia).
-  all: split; [reflexivity | intros r H; discriminate].
+  destruct inner as [| id pr | | | | |fs name| | |]; try discriminate Ki; [simpl in Ei; destruct pr; discriminate|].
+  assert (Dd : type_depth (TStruct fs name) <= d) by lia. rewrite (agree m fs name Hm Dd). split; [reflexivity|].
+  intros r H. rewrite <- (agree m fs name Hm Dd) in H.
+  destruct (sub1 m (TStruct fs name)) as [r'| |] eqn:S1; simpl in H; try discriminate.
+  inversion H; subst. unfold dle. simpl. rewrite rewrap_depth.
+  pose proof (shrink m fs name r' Hm Dd S1). lia.
 Qed.
 
 Lemma recurse_outs_ext m outs : depth_ok m -> Forall (dle d) outs ->
